@@ -180,6 +180,14 @@ PrintReject(e, class, msg, p, s) ==
                              known |-> IF class = "lostwake" /\ IsWaitKind(cfg) /\ p \in DOMAIN s.lw /\ s.lw[p] THEN "P2" ELSE "",
                              step |-> e.step, obs |-> e.obs])>>)
 
+(* real-time scenarios with a completion parked in mid-release (cfg.promptcancel): cancellation bounds a blocked      *)
+(* Acquire whatever a completion is doing meanwhile (C13) - the stable-state rule above never looks at such a state     *)
+PromptCancelLate(c, e) ==
+  /\ "promptcancel" \in DOMAIN c /\ c.promptcancel
+  /\ e.step.a = "cancel"
+  /\ IsWaitKind(c) \/ c.evictctx
+  /\ e.obs.procs[e.step.p] = "blocked" /\ ~e.obs.kids[e.step.p]
+
 Step ==
   /\ l <= Len(Log)
   /\ l' = l + 1
@@ -197,16 +205,18 @@ Step ==
               s2 == Evs(cfg, s1, e.evs, 1)
               s3 == AfterObs(cfg, s2, e.obs)
               s4 == [s3 EXCEPT !.kids = e.obs.kids]
-          IN IF s3.err # "" /\ s3.class = "early"
-             THEN \* an unjustified refusal leaves the book-keeping intact (the caller is out, holding nothing): report it and go
-                  \* on, so that what the early return did to the other callers is judged as well
-                  /\ PrintReject(e, s3.class, s3.err, "", s3) /\ UNCHANGED <<ok, cfg>>
-                  /\ st' = [s4 EXCEPT !.err = "", !.class = ""]
-                  /\ \A r \in Soft(cfg, s3, e.obs) : PrintReject(e, r[1], "stable state", r[2], s3)
-             ELSE IF s3.err # ""
-             THEN /\ PrintReject(e, s3.class, s3.err, "", s3) /\ ok' = FALSE /\ UNCHANGED <<cfg, st>>
-             ELSE /\ st' = s4 /\ UNCHANGED <<ok, cfg>>
-                  /\ \A r \in Soft(cfg, s3, e.obs) : PrintReject(e, r[1], "stable state", r[2], s3)
+          IN /\ PromptCancelLate(cfg, e) =>
+                  PrintReject(e, "bound", "a cancelled caller that no gate holds had not returned when the step had settled (a completion was in progress)", e.step.p, s3)
+             /\ IF s3.err # "" /\ s3.class = "early"
+                THEN \* an unjustified refusal leaves the book-keeping intact (the caller is out, holding nothing): report it and go
+                     \* on, so that what the early return did to the other callers is judged as well
+                     /\ PrintReject(e, s3.class, s3.err, "", s3) /\ UNCHANGED <<ok, cfg>>
+                     /\ st' = [s4 EXCEPT !.err = "", !.class = ""]
+                     /\ \A r \in Soft(cfg, s3, e.obs) : PrintReject(e, r[1], "stable state", r[2], s3)
+                ELSE IF s3.err # ""
+                THEN /\ PrintReject(e, s3.class, s3.err, "", s3) /\ ok' = FALSE /\ UNCHANGED <<cfg, st>>
+                ELSE /\ st' = s4 /\ UNCHANGED <<ok, cfg>>
+                     /\ \A r \in Soft(cfg, s3, e.obs) : PrintReject(e, r[1], "stable state", r[2], s3)
 
 Done == l > Len(Log) /\ UNCHANGED vars
 Next == Step \/ Done
